@@ -5,7 +5,7 @@ P = {
     "level_text": "exploration: knots must be bit-exact, rational dependence reproduced to rounding, values independent of query history; every >= 5% range shortfall of a vector standard, apply request, parameter query or noise grid must be refused with EINVAL, every full cover accepted; apply off-grid exact for frequency-independent error terms.",
     "design_ref": "DESIGN.md section 3 C10",
     "sources": ["harness/props/C10.cpp"],
-    "rule": "three generators: (A) vnacal_get_parameter_value on vector parameters of 1..12 knots (log/linear, jittered), values from the rational family the window reproduces, queries at knots / midpoints / random / repeated / inside the 1% slack in random order, each also asked of a fresh identical parameter; (B+C) one-port calibrations whose three standards are vector parameters on their own grids (cover or >= 5% shortfall at low/high/both ends, frequency vector set before or after the standards), then apply at on- and off-grid frequencies inside the band and >= 5% outside; (D) noise grids of 1 point with a frequency vector, the calibration grid, own grids with cover / shortfall; non-trivial = off-knot query, two-knot vector, >= 3 queries, or any range scenario; distinct = distinct choice tapes",
+    "rule": "three generators: (A) vnacal_get_parameter_value on vector parameters of 1..12 knots (log/linear, jittered), values from the rational family the window reproduces, queries at knots / midpoints / random / repeated / inside the 1% slack in random order, each also asked of a fresh identical parameter; (B+C) one-port calibrations whose three standards are vector parameters on their own grids (cover or >= 5% shortfall at low/high/both ends, frequency vector set before or after the standards), then apply at on- and off-grid frequencies inside the band and >= 5% outside; (D) noise grids of 1 point with a frequency vector, the calibration grid, own grids with cover / shortfall; non-trivial = off-knot query, two-knot vector, >= 3 queries, or any range scenario; distinct = distinct choice tapes; consumer E (correlated sigma grids): a standard whose cell is a correlated parameter with a sigma grid of 2..8 knots that covers the band / misses it by >= 5 % at the low end, the high end or both, or with a 1-point sigma (frequency ignored), 'other' = scalar / covering vector / unknown, added before or after vnacal_new_set_frequency_vector: shortfalls must be refused with EINVAL (by the add or by set_frequency_vector), the others accepted",
     "assumptions": COMMON_ASSUME + ["misses between 1% and 5% are not asserted (the slack is internal)", "rational reproduction bound 1e6*eps with poles kept one band-width off the real axis (largest observed ratio tracked in the evidence)", "correlated-parameter sigma grids are exercised by C02/C18 only (no getter exists)"],
     "tiers": tiers(
         quick=[{"name": "rand", "mode": "run", "count": 150000, "max_size": 60, "shards": 12, "max_seconds": 60}],
